@@ -864,7 +864,7 @@ designator(struct scope *s, struct type *t, unsigned long long *offset)
 				error(&tok.loc, "member designator only valid for struct/union types");
 			next();
 			name = expect(TIDENT, "for member designator");
-			m = typemember(t, name, offset);
+			m = typemember(t, name, offset, NULL);
 			if (!m)
 				error(&tok.loc, "%s has no member named '%s'", t->kind == TYPEUNION ? "union" : "struct", name);
 			t = m->type;
@@ -922,7 +922,7 @@ builtinfunc(struct scope *s, enum builtinkind kind)
 		if (t->kind != TYPESTRUCT && t->kind != TYPEUNION)
 			error(&tok.loc, "type is not a struct/union type");
 		offset = 0;
-		m = typemember(t, name, &offset);
+		m = typemember(t, name, &offset, NULL);
 		if (!m)
 			error(&tok.loc, "struct/union has no member named '%s'", name);
 		designator(s, m->type, &offset);
@@ -1100,11 +1100,11 @@ postfixexpr(struct scope *s, struct expr *r)
 				error(&tok.loc, "expected identifier after '%s' operator", tokstr[op]);
 			lvalue = op == TARROW || r->base->lvalue;
 			offset = 0;
-			m = typemember(t, tok.lit, &offset);
+			m = typemember(t, tok.lit, &offset, &tq);
 			if (!m)
 				error(&tok.loc, "struct/union has no member named '%s'", tok.lit);
 			r = mkbinaryexpr(&tok.loc, TADD, exprconvert(r, &typeulong), mkconstexpr(&typeulong, offset));
-			r->type = mkpointertype(m->type, tq | m->qual);
+			r->type = mkpointertype(m->type, tq);
 			r = mkunaryexpr(TMUL, r);
 			/* an array member has decayed to a pointer, which is not an lvalue */
 			(r->decayed ? r->base : r)->lvalue = lvalue;
